@@ -10,6 +10,7 @@ import copy
 import datetime
 import json
 import re
+import signal
 import sys
 
 from bare_script import parse_script, execute_script, evaluate_expression, parse_expression
@@ -27,7 +28,7 @@ def build(spec, pool):
     if k == 'bool':
         return bool(spec[1])
     if k == 'int':
-        return int(spec[1])
+        return int(spec[1], 0)
     if k == 'flt':
         return float.fromhex(spec[1])
     if k == 'str':
@@ -79,7 +80,7 @@ def tree(v, depth=0):
     if isinstance(v, bool):
         return ['bool', v]
     if isinstance(v, int):
-        return ['int', str(v)] if abs(v) < 10 ** 400 else ['int', 'huge:' + str(v.bit_length())]
+        return ['int', str(v)] if abs(v) < 10 ** 300 else ['int', hex(v)]
     if isinstance(v, float):
         return ['flt', v.hex()]
     if isinstance(v, str):
@@ -233,11 +234,26 @@ def run_case(case):
     return res
 
 
+class _Timeout(BaseException):
+    pass
+
+
+def _on_alarm(signum, frame):
+    raise _Timeout()
+
+
 def main():
     sys.setrecursionlimit(20000)
+    signal.signal(signal.SIGALRM, _on_alarm)
     out = []
     for case in json.load(sys.stdin):
-        r = run_case(case)
+        signal.alarm(int(case.get('timeout', 30)))
+        try:
+            r = run_case(case)
+        except _Timeout:
+            r = {'host': 'DidNotTerminate', 'host_msg': 'no result within the per-case time limit', 'log': [], 'globals': [], 'count': None}
+        finally:
+            signal.alarm(0)
         if case.get('twice'):
             r2 = run_case(case)
             r['repeat_same'] = all(r.get(k) == r2.get(k) for k in ('res', 'rt', 'parse', 'host', 'log', 'globals', 'count'))
